@@ -144,8 +144,8 @@ def run(ctx):
     L = 6 if quick else 7
     steps = [
         ('strip_ansi', 'strip_ansi', utils.strip_ansi, '\x1b[0;m Ka\x9b', L),
-        ('rm_prefix_u', 'rm_prefix_u', lambda s: re.sub(checker.unicode_literal_re, r'\1\2', s), 'uUrb\'"a _', L),
-        ('rm_prefix_b', 'rm_prefix_b', lambda s: re.sub(checker.bytes_literal_re, r'\1\2', s), 'bBRu\'"a ', L),
+        ('rm_prefix_u', 'rm_prefix_u', lambda s: re.sub(checker.unicode_literal_re, r'\1\2', s), 'uUrb\'"a \xe9', L),       # \xe9: a word character outside ASCII in front of the prefix letter
+        ('rm_prefix_b', 'rm_prefix_b', lambda s: re.sub(checker.bytes_literal_re, r'\1\2', s), 'bBR\'"a \xe9_', L),
         ('rm_trailing_ws', 'rm_trailing_ws', lambda s: re.sub(checker.TRAILING_WS, '', s), 'a \t\n\r', L + 1),
         ('drop_cr_lines', 'drop_cr_lines',
          lambda s: ''.join(l for l in s.splitlines(True) if not l.endswith('\r')), 'a\r\n \x0c\x1c\x85', L),
@@ -232,7 +232,7 @@ def run(ctx):
     rp = []
     atoms = ['a', 'b', '1', ' ', '  ', '\n', '\t', '.', '...', "'", '"', "u'", "b'", 'x', ', ', '{', '}', B, B + '\n',
              '\x1b[31m', '\x1b[0m', '\r', '\r\n', ':', '<', 'ur"', ' \n', '\xa0', '\u2028', '\u3000', '\x0c', '\x1c', '\x85', '\xe9', '\xdf',
-             '\x1b[1;32m', "U'", 'Rb"', "bR'"]
+             '\x1b[1;32m', "U'", 'Rb"', "bR'", "\xe9b'", '\xb5u"', "\xdfB'", "_b'"]     # word characters of Latin-1 (the model's character classes end at 255)
     for _ in range(n):
         want = ''.join(rng.choice(atoms) for _ in range(rng.randint(1, 12)))
         got = want
